@@ -82,7 +82,7 @@ func c18Gen(tp *Tape, env *Env, maxRunners int) (*c18Plan, []*Program) {
 		g.ensureYieldingCycles(p)
 		layout := genLayout(tp)
 		w := World{Readers: distribute(tp, p, layout, 2)}
-		w.Host = HostSpec{Storer: []string{"rec", "mem", "default"}[tp.Int(0, 2, "storer")], Probes: true, Seed: []string{"s1", "abc", "7"}[tp.Int(0, 2, "seed")], Handlers: cfg.Handlers, Overrides: tp.Chance(10, "hostoverrides")}
+		w.Host = HostSpec{Storer: []string{"rec", "mem", "default"}[tp.Int(0, 2, "storer")], Probes: true, Seed: []string{"s1", "abc", "7"}[tp.Int(0, 2, "seed")], Handlers: cfg.Handlers, Overrides: tp.Chance(10, "hostoverrides"), Scribble: tp.Chance(20, "scribble")}
 		if len(cfg.Handlers) > 0 {
 			w.Host.Scheds = drawScheds(tp, true)
 		}
